@@ -351,3 +351,8 @@ func vhSet(db *pebble.DB, k, v []byte) {
 		panic(err)
 	}
 }
+
+func vhSetSys(db *pebble.DB, local, leader uint64) {
+	_ = db.Set(sysLocalIndex, vhU64(local), pebble.NoSync)
+	_ = db.Set(sysLeaderIndex, vhU64(leader), pebble.NoSync)
+}
